@@ -283,3 +283,73 @@ Print Assumptions C07_Qlowlevel_run_and_call_embed.
 Print Assumptions C07_lenv_rel_spelled.
 Print Assumptions C07_Qoperation_embeds_in_Roperation.
 Print Assumptions C07_chk_hist_both_is_about_R_model.
+
+
+(* ================================================================================================================
+   TIE (T) FOR THE RUN LOOP: Node.run of reservoirpy/node.py, translated from the CURRENT source on every run
+   (tools/vlib/py2coq_run.py -> gen/Gen_run.v over base/CtxPrelude.v + base/RunPrelude.v); its callees Node.with_state and
+   _base.call are the translated GenState.Node_with_state / GenState.call (gen/Gen_state.v), used through their proved
+   specifications (proofs/Gen_state_eq.v).  [g_run check_ok fw check_xy initialize <the six accessors of the checked input>] is the
+   generated Node.run; check_xy / initialize / the accessors are arbitrary (C12 is about the validation). *)
+From RV Require Import base.CtxPrelude base.RunPrelude gen.Gen_state gen.Gen_run proofs.Gen_state_eq proofs.Gen_run_eq.
+
+Section C07_generated.
+Context {F : Type} `{Num F} {IRAW IDATA : Type}.
+Variable check_ok : option nat -> list F -> bool.
+Notation vec := (list F).
+
+(* heap level, ANY forward function (it may raise at any step): on an initialised node whose input check_xy accepts, the generated
+   Node.run enters the state context once, folds the forward function over the steps ([obj_run]: `_state`, params, `_fb_flag` move at
+   every successful step; the first raise stops the loop and keeps what the earlier steps wrote), restores `_state` unless stateful
+   -- also after a raise --, touches no other node, and returns the states in step order (row i = step i). *)
+Theorem C07_generated_node_run_spec {P IX : Type} (fw : nat -> @obj F P -> IX -> option (vec * P))
+    (check_xy : nat -> IRAW -> M (@heap F P) IDATA) (initialize : nat -> IX -> M (@heap F P) unit)
+    (is_arr is_list : IDATA -> bool) (len_arr len_multi : IDATA -> nat) (step_arr step_multi : IDATA -> nat -> IX)
+    n X d from stateful reset (h : @heap F P) :
+  check_xy n X h = (h, Ok d) -> fw_accepted check_ok fw n ->
+  a_is_initialized (h n) = true -> enter_check check_ok (h n) from reset = true ->
+  (exists k, a_output_dim (h n) = Some k) -> (exists v, a_state (h n) = Some v) ->
+  let '(h', r) := g_run check_ok fw check_xy initialize is_arr is_list len_arr len_multi step_arr step_multi n X from stateful reset h in
+  let '(o1, outs, ok) := obj_run fw n (xd_steps is_arr is_list len_arr len_multi step_arr step_multi d) (call_obj0 (h n) from reset) in
+  h' n = (if stateful then o1 else set_state o1 (a_state (h n))) /\ (forall k, k <> n -> h' k = h k) /\
+  match r with Ok states => ok = true /\ states = outs | Exc _ => ok = false end.
+Proof. exact (gen_node_run_spec check_ok fw check_xy initialize is_arr is_list len_arr len_multi step_arr step_multi n X d from stateful reset h). Qed.
+
+(* ... which is run_op of model/ModelSem.v on the one-node model, for every flag combination and every forward function *)
+Theorem C07_generated_node_run_is_run_op
+    (check_xy : nat -> IRAW -> M (@heap F (@hidden F)) IDATA) (initialize : nat -> vec -> M (@heap F (@hidden F)) unit)
+    (is_arr is_list : IDATA -> bool) (len_arr len_multi : IDATA -> nat) (step_arr step_multi : IDATA -> nat -> vec)
+    (d : @ndesc F) par from stateful reset X xd (h : @heap F (@hidden F)) :
+  par (nid d) = [] -> nfb d = None ->
+  check_xy (nid d) X h = (h, Ok xd) ->
+  heap_good (one_node d par) h -> starts_accepted check_ok (one_node d par) reset from h ->
+  fw_accepted check_ok (fw_run d) (nid d) ->
+  let '(h', r) := g_run check_ok (fw_run d) check_xy initialize is_arr is_list len_arr len_multi step_arr step_multi
+                        (nid d) X (from (nid d)) stateful reset h in
+  let '(e', outs, ok) := run_op (one_node d par) stateful reset from
+                                (map (step_of d) (xd_steps is_arr is_list len_arr len_multi step_arr step_multi xd)) (habs h) in
+  (forall k, habs h' k = e' k) /\
+  match r with Ok states => ok = true /\ outs = map (fun s => [s]) states | Exc _ => ok = false end.
+Proof. exact (gen_node_run_is_run_op check_ok check_xy initialize is_arr is_list len_arr len_multi step_arr step_multi d par from stateful reset X xd h). Qed.
+
+(* ... and with the default flags run_steps from the node's current state: C07_run_app / C07_chunking / C07_run_op_plain above are
+   statements about what the translated loop computes *)
+Theorem C07_generated_node_run_is_run_steps
+    (check_xy : nat -> IRAW -> M (@heap F (@hidden F)) IDATA) (initialize : nat -> vec -> M (@heap F (@hidden F)) unit)
+    (is_arr is_list : IDATA -> bool) (len_arr len_multi : IDATA -> nat) (step_arr step_multi : IDATA -> nat -> vec)
+    (d : @ndesc F) par X xd (h : @heap F (@hidden F)) :
+  par (nid d) = [] -> nfb d = None ->
+  check_xy (nid d) X h = (h, Ok xd) ->
+  heap_good (one_node d par) h -> starts_accepted check_ok (one_node d par) false (fun _ => None) h ->
+  fw_accepted check_ok (fw_run d) (nid d) ->
+  let '(h', r) := g_run check_ok (fw_run d) check_xy initialize is_arr is_list len_arr len_multi step_arr step_multi
+                        (nid d) X None true false h in
+  let '(e', outs, ok) := run_steps (one_node d par) (map (step_of d) (xd_steps is_arr is_list len_arr len_multi step_arr step_multi xd)) (habs h) in
+  (forall k, habs h' k = e' k) /\
+  match r with Ok states => ok = true /\ outs = map (fun s => [s]) states | Exc _ => ok = false end.
+Proof. exact (gen_node_run_default_is_run_steps check_ok check_xy initialize is_arr is_list len_arr len_multi step_arr step_multi d par X xd h). Qed.
+End C07_generated.
+
+Print Assumptions C07_generated_node_run_spec.
+Print Assumptions C07_generated_node_run_is_run_op.
+Print Assumptions C07_generated_node_run_is_run_steps.
